@@ -78,9 +78,9 @@ PROPS = {
 
     **{pid: {
         "layers": ["ac"], "classes": [pid + ".", "CONTRACT."],
-        "modes": {"quick": [{"mode": "actor", "args": ["-n", 16, "-hands", 3, "-playercases", 1500, "-playertimed", 24, "-observercases", 1500], "timeout": 900}],
-                  "thorough": [{"mode": "actor", "args": ["-n", 300, "-hands", 5, "-playercases", 40000, "-playertimed", 200, "-observercases", 40000, "-workers", 16], "timeout": 3000}],
-                  "search": [{"mode": "actor", "args": ["-n", 80, "-hands", 4, "-playercases", 8000, "-playertimed", 48, "-observercases", 8000, "-workers", 16], "timeout": 1500}]},
+        "modes": {"quick": [{"mode": "actor", "args": ["-n", 16, "-hands", 3, "-playercases", 1500, "-playertimed", 24, "-observercases", 1500, "-botcases", 300], "timeout": 900}],
+                  "thorough": [{"mode": "actor", "args": ["-n", 300, "-hands", 5, "-playercases", 40000, "-playertimed", 200, "-observercases", 40000, "-botcases", 6000, "-workers", 16], "timeout": 3000}],
+                  "search": [{"mode": "actor", "args": ["-n", 80, "-hands", 4, "-playercases", 8000, "-playertimed", 48, "-observercases", 8000, "-botcases", 1500, "-workers", 16], "timeout": 1500}]},
         "rule": ("(1) all-bot tables: real botRunner instances wired through the real tableEngineAdapter to a real table engine with real pokerface, 2..7 bots, stacks from 1 chip, "
                  "several blind structures, played for several hands; every table update each bot receives is recorded with the move it made (or none) and the engine's answer; "
                  "(2) real playerRunner instances (running / idle / suspended, action time 0 and 1 s) fed with the hand states collected from (1), with a recording adapter and timestamps; "
@@ -123,7 +123,7 @@ PROPS = {
         "extra_obligations": [],
     },
     "C17": {
-        "layers": ["mg", "tb", "hd"], "classes": ["C17."],
+        "layers": ["mg", "tb", "hd"], "classes": ["C17.", "CRASH."],
         "modes": {"quick": [{"mode": "mgr", "args": ["-ntable", 40, "-nhand", 16], "timeout": 900}],
                   "thorough": [{"mode": "mgr", "args": ["-ntable", 1200, "-nhand", 400, "-hands", 8, "-workers", 14], "timeout": 3000}],
                   "search": [{"mode": "mgr", "args": ["-ntable", 300, "-nhand", 100, "-workers", 14], "timeout": 1500}]},
@@ -135,6 +135,8 @@ PROPS = {
                  "TB / HD models (a manager that forwards to another method or table, permutes arguments or drops a result is a mismatch there), the call log through the MG registry "
                  "model (table-not-found exactly for unknown / closed / released ids); non-trivial = a history with at least one forwarded call; distinct = distinct trace texts"),
         "trusted_base": TB_COMMON + ["the verif hook VerifManagerStore stores an engine in the manager's map exactly as CreateTable does (4 lines, build tag verif)"],
+        "control_modes": [{"mode": "table", "args": ["-n", 60, "-hands", 6], "timeout": 900}, {"mode": "hand", "args": ["-n", 32, "-hands", 2], "timeout": 900}],
+        "control_layers": ["tb", "hd"], "control_class": "C17.call-through-the-manager-differs-from-the-engine-call",
         "assumptions": ["the extractor recognises the manager's method bodies (fails closed on any other shape)",
                         "the engines are the TB / HD models' engines: what an engine answers is decided by those layers' replays in the same run"],
         "extra_obligations": [],
@@ -148,3 +150,12 @@ PROPS["C11"] = {**PROPS["C11"], "modes": {
     "thorough": [{"mode": "hand", "args": ["-n", 2500, "-hands", 4, "-workers", 16, "-withhold", 48], "timeout": 3000}],
     "search": [{"mode": "hand", "args": ["-n", 600, "-hands", 3, "-workers", 16, "-withhold", 16], "timeout": 1500}]},
     "rule": PROPS["C11"]["rule"] + "; plus withheld-response histories: at the first ready / ante / blind request of a hand one asked player (at blind requests half of the time the highest game index asked) stays silent, the others answer, and the 17 s response time-out is waited out: the hand must move on by itself, not earlier than the time-out"}
+
+# C10's "applied once" also covers simultaneous submissions (the engine lock serialises the player actions): when its
+# proof obligations break, the search also fires action bursts (every participant, every kind, twice, at once)
+PROPS["C10"] = {**PROPS["C10"],
+    "classes": PROPS["C10"]["classes"] + ["C16.two-actions-applied-against-the-same-hand-state", "C16.accepted-actions-and-applied-backend-calls-differ",
+                                          "C16.action-accepted-from-a-player-whose-turn-it-was-not"],
+    "modes": {**PROPS["C10"]["modes"],
+              "thorough": PROPS["C10"]["modes"]["thorough"] + [{"mode": "conc", "args": ["-n", 0, "-actions", 200, "-sm", 0, "-workers", 14], "timeout": 2000}],
+              "search": PROPS["C10"]["modes"]["search"] + [{"mode": "conc", "args": ["-n", 0, "-actions", 40, "-sm", 0, "-workers", 14], "timeout": 1500}]}}
